@@ -1685,7 +1685,8 @@ func buildPatterns(vars []string, terms map[string][]string) [][]string {
 var pureResultSort = map[string]string{"strings.Trim": SStr, "strings.TrimSpace": SStr, "strings.TrimSuffix": SStr, "strings.TrimPrefix": SStr, "strings.ToLower": SStr,
 	"strings.Contains": SBool, "strings.Index": SInt, "strings.Count": SInt,
 	"(*github.com/prometheus/prometheus/promql/parser.VectorSelector).String": SStr,
-	"(*gopkg.in/yaml.v3.Node).ShortTag": SStr}
+	"(*gopkg.in/yaml.v3.Node).ShortTag": SStr, "github.com/prometheus/common/model.IsValidMetricName": SBool,
+	"(github.com/prometheus/common/model.LabelName).IsValid": SBool, "(github.com/prometheus/common/model.LabelValue).IsValid": SBool}
 
 func pureResultType(sort string) types.Type {
 	switch sort {
